@@ -19,9 +19,10 @@ Inductive aev :=
 | ACloseRet (c : cid) (r : res)
 | ARunRet
 | ASubClose (h : hid)              (* Close() called on handler h's subscriber *)
-| APubClose (h : hid)
+| APubClose (h : hid)               (* the publisher's Close() has returned *)
 | ASignal                          (* marker: close(closingInProgressCh) *)
 | ACancel                          (* marker: the user cancelled Run's context *)
+| ASubEnd (h : hid)                (* marker: handler h's subscription ended by itself (its loop ends, its own context with it) *)
 | AQuiescent.                      (* the driver saw everything at rest *)
 
 Definition mem (x : nat) (l : list nat) : bool := existsb (Nat.eqb x) l.
@@ -62,6 +63,8 @@ Definition unstarted_settled (s : mstate) : bool :=
      8  = 6 when the user had cancelled Run's context before Close signalled
     11  a message was settled after a Close call had returned nil
     12  a Close returned nil although a handler was in progress when Run returned (or started after)
+    16  a Close call returned nil while some handler's publisher had not been closed: its Close() had not
+        completed or had not even been called ([APubClose] = the publisher's Close() returned)
     14  = 1, 2 or 11 when an earlier Close call had returned an error (timeout): a later call returned nil
         while handlers still run *)
 Definition mon_step (nh : nat) (haspub : hid -> bool) (s : mstate) (e : aev) : mstate * list nat :=
@@ -82,7 +85,8 @@ Definition mon_step (nh : nat) (haspub : hid -> bool) (s : mstate) (e : aev) : m
           true (m_err s) true (m_signalled s) (m_early s) (m_runret s) (m_rundirty s) (m_susp s),
        (if any_busy s then (if m_err s then [14] else [2]) else []) ++
        (if unstarted_settled s then [3] else []) ++
-       (if m_rundirty s && negb (m_err s) then [12] else []))
+       (if m_rundirty s && negb (m_err s) then [12] else []) ++
+       (if forallb (fun h => negb (haspub h) || mem h (m_pubclosed s)) (seq 0 nh) then [] else [16]))
   | ACloseRet c RErr =>
       (MS (m_taken s) (m_started s) (m_ended s) (m_settled s) (m_subclosed s) (m_pubclosed s)
           (m_nil s) true true (m_signalled s) (m_early s) (m_runret s) (m_rundirty s)
@@ -97,6 +101,8 @@ Definition mon_step (nh : nat) (haspub : hid -> bool) (s : mstate) (e : aev) : m
                    (m_nil s) (m_err s) (m_anyret s) true (m_early s) (m_runret s) (m_rundirty s) (m_susp s), [])
   | ACancel => (MS (m_taken s) (m_started s) (m_ended s) (m_settled s) (m_subclosed s) (m_pubclosed s)
                    (m_nil s) (m_err s) (m_anyret s) (m_signalled s) (m_early s || negb (m_signalled s)) (m_runret s) (m_rundirty s) (m_susp s), [])
+  | ASubEnd h => (MS (m_taken s) (m_started s) (m_ended s) (m_settled s) (m_subclosed s) (m_pubclosed s)
+                     (m_nil s) (m_err s) (m_anyret s) (m_signalled s) (m_early s || negb (m_signalled s)) (m_runret s) (m_rundirty s) (m_susp s), [])
   | AQuiescent =>
       (s,
        if m_anyret s then
@@ -120,7 +126,7 @@ Definition mon_run (nh : nat) (haspub : hid -> bool) (es : list aev) : list (nat
 (** the safety codes the repaired model is proved never to produce (the others concern the
     closing of subscribers/publishers and are judged on the implementation only) *)
 Definition safety_code (c : nat) : bool :=
-  match c with 1 | 2 | 3 | 11 | 12 | 14 => true | _ => false end.
+  match c with 1 | 2 | 3 | 11 | 12 | 14 | 16 => true | _ => false end.
 
 (** events a step of the model produces *)
 Definition emit (s : state) (l : label) : list aev :=
@@ -146,6 +152,7 @@ Definition emit (s : state) (l : label) : list aev :=
           end
       | LRun => match run s with RWaitClosed => [ARunRet] | _ => [] end
       | LEnvCancel => [ACancel]
+      | LSubEnd h => [ASubEnd h]
       | LHc h => match hc s h with HCSubClose => [ASubClose h] | _ => [] end
       | LLoop h => match lp s h with LPubClose => [APubClose h] | _ => [] end
       | _ => []
